@@ -114,7 +114,8 @@ def run_inst(spec, run):
                 elif part == "indices":
                     los, his, vs = mkvars(ctx)
                     arr = pnd.variable_ndarray(npshim.obj_matrix([[0] * n]), variables=vs)
-                    d.update(los=los, his=his, bi=arr.boolean_variable_indices, ii=arr.integer_variable_indices)
+                    d.update(los=los, his=his, bi=arr.boolean_variable_indices, ii=arr.integer_variable_indices,
+                             alt=[arr.variable_indices(puan.Dtype.BOOL), arr.variable_indices("bool"), arr.variable_indices(puan.Dtype.INT), arr.variable_indices("int")])
                 elif part == "to_list":
                     vs = [puan.variable(i) for i in ids]
                     if spec["nd"] == 1:
@@ -199,6 +200,10 @@ def run_inst(spec, run):
                     viol.append(isb != z3.BoolVal(j in bi))
                     viol.append(isb == z3.BoolVal(j in ii))
                 if sorted(bi) != bi or sorted(ii) != ii or len(set(bi)) != len(bi) or len(set(ii)) != len(ii):
+                    viol.append(z3.BoolVal(True))
+                # the same answers through variable_indices() with the enum member and with the documented string form
+                alt = [[int(x) for x in a] for a in d["alt"]]
+                if alt[0] != bi or alt[1] != bi or alt[2] != ii or alt[3] != ii:
                     viol.append(z3.BoolVal(True))
                 run.obligation(ctx, "indices-partition", z3.Or(viol), conc)
                 run.validate(ctx, conc, lambda m: {"bi": bi, "ii": ii})
